@@ -71,7 +71,7 @@ ASSUMPTIONS = [
     "'mirrored accordingly': for a mirror of axis 0 the low/high padding arrays of axis 0 are exchanged and those of axis 1 are reversed (and vice versa)",
     "documented padding semantics (P/arr==spec): padding_low/high_axis0 fill the rows before/after axis 0; padding_low/high_axis1 fill the columns before/after axis 1 and are extended by their first/last value into the corners; None = replicate the edge (for axis 1: of the row-padded array)",
 ]
-MIN_OBLIGATIONS = {"quick": 6000, "thorough": 9000}
+MIN_OBLIGATIONS = {"quick": 5000, "thorough": 9000}
 LEVEL_TEXT = (
     "Deductive proof, for sigma in {1,2} and all design extents, values, padding configurations (16) and singleton-axis positions (3), that the output of the real "
     "GaussianSmoothing2D is affine in the design (linear with edge-replicated padding), leaves constants unchanged, stays within the range of input and padding values "
@@ -695,7 +695,7 @@ def tasks(tier, seed):
             for combo in ALL_COMBOS if (tier == "thorough" or sg == 1) else [ALL_COMBOS[0], ALL_COMBOS[-1], ALL_COMBOS[5]]:
                 out[f"E/sym/sigma{sg}/s{s}/{_combo_label(combo)}"] = Task(_end_to_end_symbolic(sg, s, combo), extra_patch=kpatch, max_paths=64, on_exception=_no_exception)
     small = []
-    dims = [(2, 2), (2, 3), (3, 2), (4, 3)] if tier == "quick" else [(2, 2), (2, 3), (3, 2), (3, 3), (4, 3), (2, 5), (7, 2), (5, 6)]
+    dims = [(2, 3), (4, 2)] if tier == "quick" else [(2, 2), (2, 3), (3, 2), (3, 3), (4, 3), (2, 5), (7, 2), (5, 6)]
     k = 0
     for nx, ny in dims:
         for combo in ALL_COMBOS:
